@@ -264,13 +264,17 @@ pub fn scenario_strategy(p: &GenParams) -> BoxedStrategy<PairScenario> {
         tail,
         // an old connection: before the generated history both endpoints idle until shortly before their millisecond
         // clocks (counted from the creation of the connection) reach a power of two - 2^32 ms are 49.7 days
-        proptest::option::weighted(0.08, (prop_oneof![5 => Just(32u8), 1 => Just(31u8), 1 => Just(24u8), 1 => Just(16u8), 1 => Just(33u8)], prop_oneof![2 => 0u32..300, 3 => 300u32..3000, 2 => 3000u32..12_000])),
+        proptest::option::weighted(0.08, (prop_oneof![5 => Just(32u8), 1 => Just(31u8), 1 => Just(24u8), 1 => Just(16u8), 2 => Just(33u8)], prop_oneof![2 => 0u32..300, 3 => 300u32..3000, 2 => 3000u32..12_000])),
     )
         .prop_map(|((d0, d1), keepalive_ms, seed, (zero_ch, zero_mode), (l0, l1), mut ticks, tail, age)| {
             if let Some((pow, before_ms)) = age {
+                // both endpoints are stepped once right after they were created (as Client / Server do), then they idle.
+                // (The idle period comes before any traffic: a pause of weeks with frames in flight yields round-trip
+                // samples of weeks, after which every timer of the protocol legitimately runs on that scale.)
                 let idle = EpAct { step: true, sends: Vec::new(), flushes: 0 };
                 let dt_ms = (1u64 << pow).saturating_sub(before_ms as u64);
-                ticks.insert(0, Tick { dt_us: dt_ms * 1000, acts: [idle.clone(), idle] });
+                ticks.insert(0, Tick { dt_us: dt_ms * 1000, acts: [idle.clone(), idle.clone()] });
+                ticks.insert(0, Tick { dt_us: 1000, acts: [idle.clone(), idle] });
             }
             let mut sc = PairScenario { dirs: [d0, d1], keepalive_ms, seed, zero_ch, zero_mode, links: [l0, l1], ticks, tail, premature_acks: Vec::new() };
             sc.normalize();
